@@ -26,6 +26,9 @@ def usub (a b : Nat) : PM Nat := if b ≤ a then pure (a - b) else rpanic "usize
 /-- `a + b` on `usize` with the debug-build overflow check. -/
 def uadd (a b : Nat) : PM Nat := if a + b > usizeMax then rpanic "usize addition overflow" else pure (a + b)
 
+/-- `a * b` on `usize` with the debug-build overflow check. -/
+def umul (a b : Nat) : PM Nat := if a * b > usizeMax then rpanic "usize multiplication overflow" else pure (a * b)
+
 /-- `reader.check_io_error()`: the parked error is taken. -/
 def checkIoError : PM (Except IoErrP Unit) := do
   let lr ← get
